@@ -1,9 +1,887 @@
-//! C10 — not implemented yet.
-use crate::ctx::Ctx;
+//! C10 — compression is transparent and format detection is sound.
+//!
+//! Requests (paths and byte strings travel as lower-case hex of their UTF-8 / raw bytes, empty = `-`):
+//!   CODECS                                   -> `name:ext,ext:magichex;...`  (running registry vs generated table)
+//!   LOWER <path>                             -> hex of the ASCII shape of `to_lowercase()` (non-ASCII runs -> `?`)
+//!   DETECT <path> <content>                  -> `R=<codec|plain> W=<codec|plain>`  decision of auto_detect_reader / _writer
+//!   RT <writer> <reader> <path> <plain>      -> `W=<codec|plain|other> R=<SAME|FAIL>`  write through an entry point, read back
+//!   RD <reader> <path> C <codec> <plain>     -> `DECODED|VERBATIM|FAIL`  file = genuine <codec> stream of <plain>
+//!   RD <reader> <path> P <raw>               -> `VERBATIM|FAIL`          file = these raw bytes
+//!
+//! Real side: the real entry points on real temp files / the fake object store. The decision of
+//! `auto_detect_reader` / `auto_detect_writer` is observed from the outside: the bytes that come out are
+//! compared with what each codec's own library (flate2, zstd, bzip2, xz2 — linked directly by the harness)
+//! produces for the same input.
+//! Oracle (independent of the model, uses only the format specifications below): a path carrying a codec
+//! extension (ASCII case-insensitive) is stored as a genuine stream of that codec that starts with the
+//! format's signature and reads back identical; a neutral name with content that does not start with a
+//! true signature is stored and read back verbatim; genuine streams under a neutral name are decoded.
 
-pub fn run(cx: &mut Ctx) {
-    cx.notes.push("C10: harness not implemented".to_string());
+use crate::ctx::{Ctx, guarded, hex};
+use ironbeam::io::cloud::readers::{read_cloud_jsonl_vec, write_cloud_jsonl_vec};
+use ironbeam::io::cloud::{FakeObjectIO, ObjectIO};
+use ironbeam::io::compression::{auto_detect_reader, auto_detect_writer, verif_codec_table};
+use ironbeam::{
+    Pipeline, from_vec, read_csv, read_csv_streaming, read_csv_vec, read_jsonl, read_jsonl_streaming,
+    read_jsonl_vec, write_csv_par, write_csv_vec, write_jsonl_par,
+};
+use ironbeam::io::jsonl::write_jsonl_vec;
+use serde::{Deserialize, Serialize};
+use std::io::{Cursor, Read, Write};
+use std::path::{Path, PathBuf};
+use std::sync::{Arc, Mutex};
+
+/// The specification: (name, documented extensions, true format signature).
+/// gzip RFC 1952; zstd RFC 8878; bzip2 "BZh"; xz file format 1.x header magic.
+const SPEC: [(&str, &[&str], &[u8]); 4] = [
+    ("gzip", &[".gz", ".gzip"], &[0x1f, 0x8b]),
+    ("zstd", &[".zst", ".zstd"], &[0x28, 0xb5, 0x2f, 0xfd]),
+    ("bzip2", &[".bz2", ".bzip2"], &[0x42, 0x5a, 0x68]),
+    ("xz", &[".xz"], &[0xfd, 0x37, 0x7a, 0x58, 0x5a, 0x00]),
+];
+
+// ---------------------------------------------------------------------------------------------
+// translator route: the running registry as a Lean table
+// ---------------------------------------------------------------------------------------------
+
+fn lean_str(s: &str) -> String {
+    let mut o = String::from("\"");
+    for c in s.chars() {
+        match c {
+            '"' => o.push_str("\\\""),
+            '\\' => o.push_str("\\\\"),
+            c if (' '..='~').contains(&c) => o.push(c),
+            c => o.push_str(&format!("\\u{:04x}", c as u32)),
+        }
+    }
+    o.push('"');
+    o
 }
 
-/// finite tables dumped from the running code (translator route); appended to Generated/Tables.lean
-pub fn tables(_out: &mut String) {}
+pub fn tables(out: &mut String) {
+    out.push_str("/-- C10: rows (name, extensions, magic bytes) of the running `CODEC_REGISTRY`\n    (`ironbeam::io::compression::verif_codec_table()`), in registry = detection order -/\n");
+    out.push_str("def codecTable : List (String × List String × Option (List Nat)) :=\n  [");
+    let rows: Vec<String> = verif_codec_table()
+        .iter()
+        .map(|(n, exts, magic)| {
+            let e: Vec<String> = exts.iter().map(|x| lean_str(x)).collect();
+            let m = match magic {
+                Some(m) => format!("some [{}]", m.iter().map(|b| b.to_string()).collect::<Vec<_>>().join(", ")),
+                None => "none".to_string(),
+            };
+            format!("({}, [{}], {})", lean_str(n), e.join(", "), m)
+        })
+        .collect();
+    out.push_str(&rows.join(",\n   "));
+    out.push_str("]\n\n");
+}
+
+// ---------------------------------------------------------------------------------------------
+// independent codecs (the libraries themselves, not ironbeam's wrappers)
+// ---------------------------------------------------------------------------------------------
+
+fn enc(c: &str, plain: &[u8]) -> Vec<u8> {
+    match c {
+        "gzip" => {
+            let mut e = flate2::write::GzEncoder::new(Vec::new(), flate2::Compression::default());
+            e.write_all(plain).unwrap();
+            e.finish().unwrap()
+        }
+        "zstd" => zstd::stream::encode_all(Cursor::new(plain), 3).unwrap(),
+        "bzip2" => {
+            let mut e = bzip2::write::BzEncoder::new(Vec::new(), bzip2::Compression::default());
+            e.write_all(plain).unwrap();
+            e.finish().unwrap()
+        }
+        "xz" => {
+            let mut e = xz2::write::XzEncoder::new(Vec::new(), 6);
+            e.write_all(plain).unwrap();
+            e.finish().unwrap()
+        }
+        _ => unreachable!(),
+    }
+}
+
+fn drain(mut r: impl Read) -> Result<Vec<u8>, String> {
+    let mut v = Vec::new();
+    match r.read_to_end(&mut v) {
+        Ok(_) => Ok(v),
+        Err(e) => Err(e.to_string()),
+    }
+}
+
+fn dec(c: &str, data: &[u8]) -> Result<Vec<u8>, String> {
+    let cur = Cursor::new(data.to_vec());
+    match c {
+        "gzip" => drain(flate2::read::GzDecoder::new(cur)),
+        "zstd" => match zstd::stream::read::Decoder::new(cur) {
+            Ok(d) => drain(d),
+            Err(e) => Err(e.to_string()),
+        },
+        "bzip2" => drain(bzip2::read::BzDecoder::new(cur)),
+        "xz" => drain(xz2::read::XzDecoder::new(cur)),
+        _ => unreachable!(),
+    }
+}
+
+// ---------------------------------------------------------------------------------------------
+// specification helpers (oracle side)
+// ---------------------------------------------------------------------------------------------
+
+/// codec whose documented extension the path carries (ASCII case-insensitive suffix)
+fn spec_ext(path: &str) -> Option<&'static str> {
+    let p = path.to_ascii_lowercase();
+    for (n, exts, _) in SPEC {
+        for e in exts {
+            if p.ends_with(e) {
+                return Some(n);
+            }
+        }
+    }
+    None
+}
+/// codec whose true signature the content starts with
+fn spec_sig(content: &[u8]) -> Option<&'static str> {
+    SPEC.iter().find(|(_, _, s)| content.starts_with(s)).map(|x| x.0)
+}
+
+/// which codec (or none) turned `plain` into `stored`
+fn classify_stored(stored: &[u8], plain: &[u8]) -> String {
+    if stored == plain {
+        return "plain".into();
+    }
+    for (n, _, sig) in SPEC {
+        if stored.starts_with(sig) && dec(n, stored).as_deref() == Ok(plain) {
+            return n.to_string();
+        }
+    }
+    "other".into()
+}
+
+// ---------------------------------------------------------------------------------------------
+// entry points
+// ---------------------------------------------------------------------------------------------
+
+#[derive(Serialize, Deserialize, Clone, Debug, PartialEq)]
+struct Row {
+    name: String,
+    n: i64,
+}
+
+#[derive(Clone, Copy, PartialEq, Eq, Debug)]
+enum W { Raw, JsonlVec, JsonlPar, CsvVec, CsvPar, PcJsonl, PcJsonlPar, PcCsv, PcCsvPar, CloudJsonl }
+#[derive(Clone, Copy, PartialEq, Eq, Debug)]
+enum R { Raw, JsonlVec, JsonlHelper, JsonlStreaming, CsvVec, CsvHelper, CsvStreaming, CloudJsonl }
+
+const J_WRITERS: [W; 6] = [W::Raw, W::JsonlVec, W::JsonlPar, W::PcJsonl, W::PcJsonlPar, W::CloudJsonl];
+const C_WRITERS: [W; 5] = [W::Raw, W::CsvVec, W::CsvPar, W::PcCsv, W::PcCsvPar];
+const J_READERS: [R; 5] = [R::Raw, R::JsonlVec, R::JsonlHelper, R::JsonlStreaming, R::CloudJsonl];
+const C_READERS: [R; 4] = [R::Raw, R::CsvVec, R::CsvHelper, R::CsvStreaming];
+
+impl W {
+    fn tok(self) -> &'static str {
+        match self {
+            W::Raw => "raw", W::JsonlVec => "jsonl_vec", W::JsonlPar => "jsonl_par", W::CsvVec => "csv_vec",
+            W::CsvPar => "csv_par", W::PcJsonl => "pc_jsonl", W::PcJsonlPar => "pc_jsonl_par",
+            W::PcCsv => "pc_csv", W::PcCsvPar => "pc_csv_par", W::CloudJsonl => "cloud_jsonl",
+        }
+    }
+}
+impl R {
+    fn tok(self) -> &'static str {
+        match self {
+            R::Raw => "raw", R::JsonlVec => "jsonl_vec", R::JsonlHelper => "jsonl_helper",
+            R::JsonlStreaming => "jsonl_streaming", R::CsvVec => "csv_vec", R::CsvHelper => "csv_helper",
+            R::CsvStreaming => "csv_streaming", R::CloudJsonl => "cloud_jsonl",
+        }
+    }
+}
+
+#[derive(Clone)]
+struct Shared(Arc<Mutex<Vec<u8>>>);
+impl Write for Shared {
+    fn write(&mut self, b: &[u8]) -> std::io::Result<usize> {
+        self.0.lock().unwrap().extend_from_slice(b);
+        Ok(b.len())
+    }
+    fn flush(&mut self) -> std::io::Result<()> { Ok(()) }
+}
+
+/// a payload: either records (with their independent plain serialisation) or raw bytes
+#[derive(Clone)]
+struct Payload {
+    recs: Option<Vec<Row>>,
+    headers: bool,
+    plain: Vec<u8>,
+}
+
+fn jsonl_plain(recs: &[Row]) -> Vec<u8> {
+    let mut v = Vec::new();
+    for r in recs {
+        // field order and escaping per RFC 8259 for the restricted alphabet the generator uses
+        v.extend_from_slice(format!("{{\"name\":\"{}\",\"n\":{}}}\n", r.name, r.n).as_bytes());
+    }
+    v
+}
+fn csv_plain(recs: &[Row], headers: bool) -> Vec<u8> {
+    let mut v = Vec::new();
+    if headers && !recs.is_empty() {
+        v.extend_from_slice(b"name,n\n");
+    }
+    for r in recs {
+        v.extend_from_slice(format!("{},{}\n", r.name, r.n).as_bytes());
+    }
+    v
+}
+
+struct Env {
+    root: PathBuf,
+    next: usize,
+}
+impl Env {
+    fn fresh(&mut self, rel: &str) -> PathBuf {
+        self.next += 1;
+        let d = self.root.join(format!("{}", self.next));
+        d.join(rel)
+    }
+    fn cleanup(&self) {
+        let d = self.root.join(format!("{}", self.next));
+        let _ = std::fs::remove_dir_all(d);
+    }
+}
+
+fn e2s<T, E: std::fmt::Display>(r: Result<T, E>) -> Result<T, String> {
+    r.map_err(|e| format!("{e:#}"))
+}
+
+/// run a writer entry point; returns the stored bytes
+fn real_write(w: W, path: &Path, key: &str, pl: &Payload, shards: usize) -> Result<Vec<u8>, String> {
+    if let Some(parent) = path.parent() {
+        let _ = std::fs::create_dir_all(parent);
+    }
+    let recs: &[Row] = pl.recs.as_deref().unwrap_or(&[]);
+    let h = pl.headers;
+    let from_file = |r: Result<usize, String>| -> Result<Vec<u8>, String> {
+        r?;
+        e2s(std::fs::read(path))
+    };
+    match w {
+        W::Raw => {
+            let buf = Shared(Arc::new(Mutex::new(Vec::new())));
+            let mut wr = e2s(auto_detect_writer(buf.clone(), path))?;
+            e2s(wr.write_all(&pl.plain))?;
+            e2s(wr.flush())?;
+            drop(wr);
+            let v = buf.0.lock().unwrap().clone();
+            Ok(v)
+        }
+        W::JsonlVec => from_file(e2s(write_jsonl_vec(path, recs))),
+        W::JsonlPar => from_file(e2s(write_jsonl_par(path, recs, Some(shards)))),
+        W::CsvVec => from_file(e2s(write_csv_vec(path, h, recs))),
+        W::CsvPar => from_file(e2s(write_csv_par(path, recs, Some(shards), h))),
+        W::PcJsonl => {
+            let p = Pipeline::default();
+            from_file(e2s(from_vec(&p, recs.to_vec()).write_jsonl(path)))
+        }
+        W::PcJsonlPar => {
+            let p = Pipeline::default();
+            from_file(e2s(from_vec(&p, recs.to_vec()).write_jsonl_par(path, Some(shards))))
+        }
+        W::PcCsv => {
+            let p = Pipeline::default();
+            from_file(e2s(from_vec(&p, recs.to_vec()).write_csv(path, h)))
+        }
+        W::PcCsvPar => {
+            let p = Pipeline::default();
+            from_file(e2s(from_vec(&p, recs.to_vec()).write_csv_par(path, None, h)))
+        }
+        W::CloudJsonl => {
+            let st = FakeObjectIO::new();
+            e2s(write_cloud_jsonl_vec(&st, "b", key, recs))?;
+            e2s(st.get_object("b", key))
+        }
+    }
+}
+
+enum Out { Recs(Vec<Row>), Bytes(Vec<u8>) }
+
+/// run a reader entry point on `stored` placed under `path` / `key`
+fn real_read(r: R, path: &Path, key: &str, stored: &[u8], headers: bool, per: usize, par: bool) -> Result<Out, String> {
+    if r != R::CloudJsonl {
+        if let Some(parent) = path.parent() {
+            let _ = std::fs::create_dir_all(parent);
+        }
+        e2s(std::fs::write(path, stored))?;
+    }
+    match r {
+        R::Raw => {
+            let f = e2s(std::fs::File::open(path))?;
+            let rd = e2s(auto_detect_reader(f, path))?;
+            Ok(Out::Bytes(drain(rd)?))
+        }
+        R::JsonlVec => Ok(Out::Recs(e2s(read_jsonl_vec::<Row>(path))?)),
+        R::JsonlHelper => {
+            let p = Pipeline::default();
+            Ok(Out::Recs(e2s(e2s(read_jsonl::<Row>(&p, path))?.collect_seq())?))
+        }
+        R::JsonlStreaming => {
+            let p = Pipeline::default();
+            let c = e2s(read_jsonl_streaming::<Row>(&p, path, per))?;
+            Ok(Out::Recs(e2s(if par { c.collect_par(None, None) } else { c.collect_seq() })?))
+        }
+        R::CsvVec => Ok(Out::Recs(e2s(read_csv_vec::<Row>(path, headers))?)),
+        R::CsvHelper => {
+            let p = Pipeline::default();
+            Ok(Out::Recs(e2s(e2s(read_csv::<Row>(&p, path, headers))?.collect_seq())?))
+        }
+        R::CsvStreaming => {
+            let p = Pipeline::default();
+            let c = e2s(read_csv_streaming::<Row>(&p, path, headers, per))?;
+            Ok(Out::Recs(e2s(if par { c.collect_par(None, None) } else { c.collect_seq() })?))
+        }
+        R::CloudJsonl => {
+            let st = FakeObjectIO::new();
+            e2s(st.put_object("b", key, stored))?;
+            Ok(Out::Recs(e2s(read_cloud_jsonl_vec::<Row, _>(&st, "b", key))?))
+        }
+    }
+}
+
+fn same_as(out: &Out, pl: &Payload) -> bool {
+    match out {
+        Out::Recs(v) => pl.recs.as_deref() == Some(v.as_slice()),
+        Out::Bytes(b) => *b == pl.plain,
+    }
+}
+
+fn hx(b: &[u8]) -> String {
+    if b.is_empty() { "-".into() } else { hex(b) }
+}
+
+// ---------------------------------------------------------------------------------------------
+// the request kinds
+// ---------------------------------------------------------------------------------------------
+
+fn one_codecs(cx: &mut Ctx) {
+    let t = verif_codec_table();
+    let s: Vec<String> = t
+        .iter()
+        .map(|(n, e, m)| format!("{}:{}:{}", n, e.join(","), m.as_ref().map_or("none".into(), |m| hx(m))))
+        .collect();
+    let i = cx.case("CODECS".into(), s.join(";"), true);
+    // oracle: the registry's magic bytes are the true signatures, pairwise prefix-free
+    for (n, _, m) in &t {
+        let want = SPEC.iter().find(|x| x.0 == n).map(|x| x.2.to_vec());
+        if want.is_some() && *m != want {
+            cx.oracle_fail(i, "registry-magic-not-format-signature", format!("{n}: magic {:?} but the format signature is {:?}", m, want));
+        }
+    }
+}
+
+/// the model's lower-casing, re-implemented (tied to the Lean definition through LOWER requests)
+fn lower_char_model(c: char) -> Vec<char> {
+    if c.is_ascii_uppercase() { vec![c.to_ascii_lowercase()] }
+    else if c == '\u{130}' { vec!['i', '\u{307}'] }
+    else if c == '\u{212A}' { vec!['k'] }
+    else { vec![c] }
+}
+fn ascii_shape(cs: impl Iterator<Item = char>) -> String {
+    let mut o = String::new();
+    let mut in_run = false;
+    for c in cs {
+        if c.is_ascii() { o.push(c); in_run = false; } else if !in_run { o.push('?'); in_run = true; }
+    }
+    o
+}
+fn one_lower(cx: &mut Ctx, s: &str) {
+    let real = ascii_shape(s.to_lowercase().chars());
+    cx.case(format!("LOWER {}", hx(s.as_bytes())), hx(real.as_bytes()), false);
+    cx.count("lower");
+}
+
+/// outcome of pushing `content` through a reader
+fn observe_reader(path: &str, content: &[u8]) -> String {
+    let got: Result<Vec<u8>, String> = match guarded(|| {
+        match auto_detect_reader(Cursor::new(content.to_vec()), path) {
+            Ok(r) => drain(r),
+            Err(e) => Err(format!("{e:#}")),
+        }
+    }) {
+        Ok(x) => x,
+        Err(_) => return "PANIC".into(),
+    };
+    let mut cands: Vec<&str> = vec![];
+    if got.as_deref() == Ok(content) { cands.push("plain"); }
+    for (n, _, _) in SPEC {
+        if dec(n, content) == got { cands.push(n); }
+    }
+    match cands.len() {
+        1 => cands[0].to_string(),
+        0 => "UNKNOWN".into(),
+        _ => format!("AMBIG({})", cands.join("|")),
+    }
+}
+fn observe_writer(path: &str, probe: &[u8]) -> String {
+    let r = guarded(|| -> Result<Vec<u8>, String> {
+        let buf = Shared(Arc::new(Mutex::new(Vec::new())));
+        let mut w = e2s(auto_detect_writer(buf.clone(), path))?;
+        e2s(w.write_all(probe))?;
+        e2s(w.flush())?;
+        drop(w);
+        let v = buf.0.lock().unwrap().clone();
+        Ok(v)
+    });
+    match r {
+        Ok(Ok(stored)) => classify_stored(&stored, probe),
+        Ok(Err(_)) => "ERR".into(),
+        Err(_) => "PANIC".into(),
+    }
+}
+
+fn one_detect(cx: &mut Ctx, path: &str, content: &[u8]) {
+    let r = observe_reader(path, content);
+    let w = observe_writer(path, b"probe-payload 0123456789\n");
+    let ext = spec_ext(path);
+    let sig = spec_sig(content);
+    let nt = ext.is_some() || sig.is_some() || SPEC.iter().any(|(_, _, s)| !content.is_empty() && (s.starts_with(content) || content.starts_with(&s[..1])));
+    let i = cx.case(format!("DETECT {} {}", hx(path.as_bytes()), hx(content)), format!("R={r} W={w}"), nt);
+    cx.count(&format!("detect:R={}", if r.starts_with("AMBIG") { "AMBIG" } else { &r }));
+    let want_r = ext.or(sig).unwrap_or("plain");
+    let want_w = ext.unwrap_or("plain");
+    if r != want_r {
+        let sig_name = if ext.is_none() && sig.is_none() { "neutral-plain-content-detected-as-compressed" }
+            else if ext.is_none() { "neutral-signature-not-recognised" } else { "extension-reader-decision-wrong" };
+        cx.oracle_fail(i, sig_name, format!("path {path:?} content {}: reader decision {r}, specification says {want_r}", hx(&content[..content.len().min(12)])));
+    }
+    if w != want_w {
+        cx.oracle_fail(i, "extension-writer-decision-wrong", format!("path {path:?}: writer decision {w}, specification says {want_w}"));
+    }
+}
+
+struct RtOpts { shards: usize, per: usize, par: bool }
+
+fn one_rt(cx: &mut Ctx, env: &mut Env, w: W, r: R, rel: &str, pl: &Payload, o: &RtOpts) {
+    let path = env.fresh(rel);
+    // writer and reader are guarded separately: a panic while READING is a failed read, not a lost write
+    let wres = guarded(|| real_write(w, &path, rel, pl, o.shards));
+    let (wc, rc, detail) = match wres {
+        Err(m) => ("PANIC".to_string(), "FAIL".to_string(), format!("writer panicked: {m}")),
+        Ok(Err(e)) => ("ERR".to_string(), "FAIL".to_string(), format!("write error: {e}")),
+        Ok(Ok(stored)) => {
+            let wc = classify_stored(&stored, &pl.plain);
+            // read back what the writer stored, through reader `r` (same path / key)
+            let (rc, detail) = match guarded(|| real_read(r, &path, rel, &stored, pl.headers, o.per, o.par)) {
+                Ok(Ok(out)) => if same_as(&out, pl) { ("SAME".to_string(), String::new()) } else { ("FAIL".to_string(), "read back different data".to_string()) },
+                Ok(Err(e)) => ("FAIL".to_string(), format!("read error: {e}")),
+                Err(m) => { cx.count("rt:reader-panicked"); ("FAIL".to_string(), format!("reader panicked: {m}")) }
+            };
+            (wc, rc, detail)
+        }
+    };
+    env.cleanup();
+    let ext = spec_ext(rel);
+    let sig = spec_sig(&pl.plain);
+    let nt = ext.is_some() || sig.is_some();
+    let i = cx.case(
+        format!("RT {} {} {} {}", w.tok(), r.tok(), hx(rel.as_bytes()), hx(&pl.plain)),
+        format!("W={wc} R={rc}"),
+        nt,
+    );
+    cx.count(&format!("rt:w={}", w.tok()));
+    cx.count(&format!("rt:r={}", r.tok()));
+    cx.count(&format!("rt:stored={wc}"));
+    cx.count(if ext.is_some() { "rt:path=codec-ext" } else if sig.is_some() { "rt:path=neutral,content=signature" } else { "rt:path=neutral" });
+    match ext {
+        Some(c) => {
+            if wc != c {
+                cx.oracle_fail(i, &format!("codec-extension-not-stored-compressed:{}", w.tok()),
+                    format!("{} to {rel:?}: stored as {wc}, expected a genuine {c} stream starting with its signature ({detail})", w.tok()));
+            }
+            if rc != "SAME" {
+                cx.oracle_fail(i, &format!("codec-extension-roundtrip-fails:{}", w.tok()),
+                    format!("{} to {rel:?} then {}: {detail}", w.tok(), r.tok()));
+            }
+        }
+        None => {
+            if sig.is_none() {
+                if wc != "plain" {
+                    cx.oracle_fail(i, "neutral-name-not-stored-verbatim", format!("{} to {rel:?}: stored as {wc}", w.tok()));
+                }
+                if rc != "SAME" {
+                    cx.oracle_fail(i, "neutral-plain-content-not-read-verbatim", format!("{} to {rel:?} then {}: {detail}", w.tok(), r.tok()));
+                }
+            }
+        }
+    }
+}
+
+/// `file` is either a genuine stream (`codec` = Some) of `pl.plain`, or `pl.plain` itself
+fn one_rd(cx: &mut Ctx, env: &mut Env, r: R, rel: &str, codec: Option<&'static str>, pl: &Payload, o: &RtOpts) {
+    let file = match codec { Some(c) => enc(c, &pl.plain), None => pl.plain.clone() };
+    // the assumed codec laws (hypothesis `Lawful` of the theorems), validated on the real libraries
+    let law_broken = match codec {
+        Some(c) => {
+            let sig = SPEC.iter().find(|x| x.0 == c).unwrap().2;
+            !(file.starts_with(sig) && dec(c, &file).as_deref() == Ok(&pl.plain[..]))
+        }
+        None => false,
+    };
+    let path = env.fresh(rel);
+    let res = guarded(|| real_read(r, &path, rel, &file, pl.headers, o.per, o.par));
+    env.cleanup();
+    let (ans, detail) = match res {
+        Ok(Ok(out)) => {
+            if same_as(&out, pl) { (if codec.is_some() { "DECODED" } else { "VERBATIM" }, String::new()) }
+            else if matches!(&out, Out::Bytes(b) if *b == file) { ("VERBATIM", String::new()) }
+            else { ("FAIL", "different data".to_string()) }
+        }
+        Ok(Err(e)) => ("FAIL", e),
+        Err(m) => { cx.count("rd:reader-panicked"); ("FAIL", format!("panic: {m}")) }
+    };
+    let ext = spec_ext(rel);
+    let sig = spec_sig(&file);
+    let req = match codec {
+        Some(c) => format!("RD {} {} C {} {}", r.tok(), hx(rel.as_bytes()), c, hx(&pl.plain)),
+        None => format!("RD {} {} P {}", r.tok(), hx(rel.as_bytes()), hx(&pl.plain)),
+    };
+    let i = cx.case(req, ans.to_string(), true);
+    cx.count(&format!("rd:r={}", r.tok()));
+    cx.count(&format!("rd:{}:{}", if codec.is_some() { "genuine" } else { "raw" }, ans));
+    if codec.is_some() { cx.count("codec-law-validated(roundtrip+signature)"); }
+    if law_broken {
+        cx.oracle_fail(i, "codec-library-law-violated", format!("{codec:?}: compress output does not start with the format signature or does not decompress to the input"));
+    }
+    match (codec, ext) {
+        (Some(c), None) => if ans != "DECODED" {
+            cx.oracle_fail(i, "neutral-signature-not-recognised", format!("genuine {c} stream under neutral name {rel:?} read through {}: {ans} {detail}", r.tok()));
+        },
+        (Some(c), Some(e)) if c == e => if ans != "DECODED" {
+            cx.oracle_fail(i, "codec-extension-read-fails", format!("genuine {c} stream under {rel:?} read through {}: {ans} {detail}", r.tok()));
+        },
+        (None, None) => if sig.is_none() && ans != "VERBATIM" {
+            cx.oracle_fail(i, "neutral-plain-content-not-read-verbatim", format!("plain content {} under neutral name {rel:?} read through {}: {ans} {detail}", hx(&file[..file.len().min(12)]), r.tok()));
+        },
+        _ => {}
+    }
+}
+
+// ---------------------------------------------------------------------------------------------
+// generators
+// ---------------------------------------------------------------------------------------------
+
+fn case_variant(cx: &mut Ctx, e: &str, k: usize) -> String {
+    match k {
+        0 => e.to_string(),
+        1 => e.to_ascii_uppercase(),
+        2 => { // Capitalised after the dot: ".Gz"
+            let mut s = String::new();
+            for (i, c) in e.chars().enumerate() { s.push(if i == 1 { c.to_ascii_uppercase() } else { c }); }
+            s
+        }
+        _ => e.chars().map(|c| if cx.rng.chance(1, 2) { c.to_ascii_uppercase() } else { c }).collect(),
+    }
+}
+
+const NEUTRAL_TAILS: [&str; 26] = [
+    "", ".dat", ".jsonl", ".csv", ".txt", ".gzz", ".g", ".z", ".bz", ".bz3", ".zs", ".zstdd", ".x", ".xzz",
+    "gz", "-gz", ".gz.bak", ".gz ", ".tgz", ".GZ.txt", ".gz\u{130}p", ".g\u{212A}z", ".\u{ff47}\u{ff5a}", "_xz", ".bzip", ".gzi",
+];
+const STEMS: [&str; 12] = ["x", "data", "a.b", "", "X.GZ", "BZh", "part-0001", "donn\u{e9}es", "archive.tar", ".hidden", "x.gz", "zst"];
+const MIDS: [&str; 5] = ["", ".jsonl", ".csv", ".txt", ".JSONL"];
+const DIRS: [&str; 4] = ["sub.gz/", "d/", "A.XZ/", "n.bz2/"];
+
+fn all_exts() -> Vec<&'static str> {
+    SPEC.iter().flat_map(|x| x.1.iter().copied()).collect()
+}
+
+fn gen_name(cx: &mut Ctx) -> String {
+    let stem = *cx.rng.pick(&STEMS);
+    let mid = *cx.rng.pick(&MIDS);
+    let tail = if cx.rng.chance(3, 5) {
+        let exts = all_exts();
+        let e = *cx.rng.pick(&exts);
+        let k = cx.rng.below(4);
+        case_variant(cx, e, k)
+    } else {
+        (*cx.rng.pick(&NEUTRAL_TAILS)).to_string()
+    };
+    let mut name = format!("{stem}{mid}{tail}");
+    if name.is_empty() || name == "." || name == ".." { name = format!("f{name}"); }
+    if cx.rng.chance(1, 7) { name = format!("{}{}", cx.rng.pick(&DIRS), name); }
+    name
+}
+
+const NAME_POOL: [&str; 12] = ["alice", "Bob", "BZ", "BZh", "BZh91AY&SY", "B", "x y", "7", "gz", "Zed-9", "BZH", "(paren"];
+
+fn gen_rows(cx: &mut Ctx, max: usize) -> Vec<Row> {
+    let n = cx.rng.below(max + 1);
+    (0..n)
+        .map(|_| Row {
+            name: (*cx.rng.pick(&NAME_POOL)).to_string(),
+            n: match cx.rng.below(4) { 0 => cx.rng.range(-3, 3), 1 => i64::MAX, 2 => i64::MIN, _ => cx.rng.range(-100000, 100000) },
+        })
+        .collect()
+}
+
+fn payload_j(recs: Vec<Row>) -> Payload {
+    let plain = jsonl_plain(&recs);
+    Payload { recs: Some(recs), headers: false, plain }
+}
+fn payload_c(recs: Vec<Row>, headers: bool) -> Payload {
+    // csv's `deserialize()` with has_headers = true swallows an I/O error that occurs while it reads the
+    // header line and then reports an EMPTY data set; with an empty expected data set a failed read would
+    // be indistinguishable from a good one, so empty data sets are always read with has_headers = false
+    // (an empty data set has no header line, the flag changes nothing on the writing side).
+    let headers = headers && !recs.is_empty();
+    let plain = csv_plain(&recs, headers);
+    Payload { recs: Some(recs), headers, plain }
+}
+fn payload_b(bytes: Vec<u8>) -> Payload {
+    Payload { recs: None, headers: false, plain: bytes }
+}
+
+/// byte strings around every signature: proper prefixes, the signature, the signature + tail,
+/// the signature with its last byte altered, plus the historical witnesses
+fn prefix_contents() -> Vec<Vec<u8>> {
+    let mut v: Vec<Vec<u8>> = vec![vec![], b"BZ".to_vec(), b"BZ,1\nfoo,2\n".to_vec(), b"BZh".to_vec(), b"BZh91AY&SY garbage".to_vec(),
+        b"hello, world\n".to_vec(), b"{\"name\":\"BZ\",\"n\":1}\n".to_vec(), b"name,n\nBZ,1\n".to_vec(), vec![0x00], vec![0xff, 0xfe]];
+    for (_, _, s) in SPEC {
+        for k in 1..=s.len() {
+            v.push(s[..k].to_vec());
+            let mut t = s[..k].to_vec();
+            t.extend_from_slice(b",1\nrest of the file\n");
+            v.push(t);
+        }
+        let mut a = s.to_vec();
+        let l = a.len() - 1;
+        a[l] ^= 0x01;
+        a.extend_from_slice(b" tail tail tail");
+        v.push(a);
+    }
+    v
+}
+
+fn safe_shards(cx: &mut Ctx, n: usize) -> usize {
+    // `write_jsonl_par` panics for some (n, shards) (range start out of bounds — property C09's finding);
+    // only combinations inside its working domain are used here
+    let cands: Vec<usize> = [1usize, 2, 3, n.max(1)]
+        .into_iter()
+        .filter(|&k| {
+            let s = k.clamp(1, n.max(1));
+            let chunk = n.max(1).div_ceil(s);
+            (s - 1) * chunk <= n
+        })
+        .collect();
+    *cx.rng.pick(&cands)
+}
+
+fn gen_opts(cx: &mut Ctx, n: usize) -> RtOpts {
+    RtOpts { shards: safe_shards(cx, n), per: *cx.rng.pick(&[1usize, 2, 3, 1000]), par: cx.rng.chance(1, 2) }
+}
+
+pub fn run(cx: &mut Ctx) {
+    let tmp = tempfile::tempdir().expect("tempdir");
+    let mut env = Env { root: tmp.path().to_path_buf(), next: 0 };
+
+    // ---- (0) tables and the lower-casing assumption ----
+    one_codecs(cx);
+    let mut mism = 0u64;
+    for cp in 0u32..=0x10FFFF {
+        if let Some(c) = char::from_u32(cp) {
+            let real = ascii_shape(c.to_string().to_lowercase().chars());
+            let model = ascii_shape(lower_char_model(c).into_iter());
+            if real != model {
+                mism += 1;
+                if mism <= 20 { one_lower(cx, &c.to_string()); }
+            }
+        }
+    }
+    cx.count_n("lower:unicode-scalars-checked", 0x110000 - 0x800);
+    cx.count_n("lower:model-mismatch", mism);
+    cx.exhaustive_blocks.push("LOWER: every Unicode scalar value: ASCII shape of char::to_lowercase == the model's lowerChar (mismatches are sent to the driver and show up as disagreements)".into());
+    for s in ["ABCXYZ.Gz", "x.GZ\u{130}P", "\u{212A}elvin.XZ", "\u{c9}T\u{c9}.BZ2", "@[`{AZaz", "\u{3a3}\u{3a3}.zst", "\u{ff27}\u{ff3a}"] {
+        one_lower(cx, s);
+    }
+    for cp in 0u32..128 { one_lower(cx, &char::from_u32(cp).unwrap().to_string()); }
+
+    // ---- (1) corpus: the design witnesses ----
+    let w3 = vec![Row { name: "a".into(), n: 1 }, Row { name: "b".into(), n: 2 }, Row { name: "c".into(), n: 3 }, Row { name: "d".into(), n: 4 }];
+    let o2 = RtOpts { shards: 2, per: 2, par: false };
+    one_rt(cx, &mut env, W::JsonlPar, R::JsonlVec, "x.jsonl.gz", &payload_j(w3.clone()), &o2);
+    one_rt(cx, &mut env, W::CsvPar, R::CsvVec, "x.csv.gz", &payload_c(w3.clone(), false), &o2);
+    one_rt(cx, &mut env, W::PcJsonlPar, R::JsonlVec, "x.jsonl.zst", &payload_j(w3.clone()), &o2);
+    one_rt(cx, &mut env, W::JsonlPar, R::JsonlVec, "e.jsonl.gz", &payload_j(vec![]), &o2);
+    one_rt(cx, &mut env, W::CsvPar, R::CsvVec, "e.csv.xz", &payload_c(vec![], true), &o2);
+    one_rt(cx, &mut env, W::CloudJsonl, R::CloudJsonl, "dir/.gz", &payload_j(w3.clone()), &o2);
+    one_rt(cx, &mut env, W::CloudJsonl, R::CloudJsonl, ".bz2", &payload_j(w3.clone()), &o2);
+    let bz = vec![Row { name: "BZ".into(), n: 1 }, Row { name: "foo".into(), n: 2 }];
+    one_rd(cx, &mut env, R::CsvVec, "plain.csv", None, &payload_c(bz.clone(), false), &o2);
+    one_rt(cx, &mut env, W::CsvVec, R::CsvVec, "plain.csv", &payload_c(bz.clone(), false), &o2);
+    one_rd(cx, &mut env, R::Raw, "plain.txt", None, &payload_b(b"BZ".to_vec()), &o2);
+    one_detect(cx, "plain.csv", b"BZ,1\nfoo,2\n");
+    one_detect(cx, "notes.txt", b"BZ");
+
+    // ---- (2) exhaustive small scope ----
+    let exts = all_exts();
+    let contents = prefix_contents();
+    let mut names: Vec<String> = vec![];
+    for e in &exts {
+        for k in 0..3 {
+            names.push(format!("x.jsonl{}", case_variant(cx, e, k)));
+        }
+        names.push((*e).to_string()); // the bare extension as the whole name
+    }
+    for t in NEUTRAL_TAILS { names.push(format!("x{t}")); }
+    names.push("sub.gz/x.jsonl".into());
+    let mut nd = 0;
+    for n in &names {
+        for c in &contents {
+            one_detect(cx, n, c);
+            nd += 1;
+        }
+    }
+    cx.exhaustive_blocks.push(format!("DETECT: {} names (every extension x {{lower, UPPER, Capitalised}}, bare extensions, {} neutral tails, a directory carrying an extension) x {} contents (every non-empty prefix of every signature alone and followed by text, each signature with its last byte flipped, 'BZ' witnesses, empty) = {nd} cases", names.len(), NEUTRAL_TAILS.len(), contents.len()));
+
+    let rt_names: Vec<String> = {
+        let mut v = vec![];
+        for e in &exts {
+            for k in 0..cx.budget(2, 3) { v.push(format!("x.d{}", case_variant(cx, e, k))); }
+        }
+        v.push("x.dat".into());
+        v.push("x.gz.bak".into());
+        v
+    };
+    let bzh = vec![Row { name: "BZh".into(), n: 7 }, Row { name: "BZ".into(), n: -1 }, Row { name: "q".into(), n: 0 }];
+    let j_payloads = vec![payload_j(vec![]), payload_j(bzh.clone())];
+    let c_payloads = vec![payload_c(vec![], true), payload_c(bzh.clone(), false), payload_c(bzh.clone(), true)];
+    let mut nrt = 0;
+    for n in &rt_names {
+        for pl in &j_payloads {
+            for w in J_WRITERS { for r in J_READERS {
+                one_rt(cx, &mut env, w, r, n, pl, &RtOpts { shards: 2, per: 2, par: nrt % 2 == 0 });
+                nrt += 1;
+            } }
+        }
+        for pl in &c_payloads {
+            for w in C_WRITERS { for r in C_READERS {
+                one_rt(cx, &mut env, w, r, n, pl, &RtOpts { shards: 2, per: 2, par: nrt % 2 == 0 });
+                nrt += 1;
+            } }
+        }
+    }
+    cx.exhaustive_blocks.push(format!("RT: every writer entry point x every reader entry point of the same format (6x5 JSONL, 5x4 CSV) x {} names (every extension in {} case variants + 2 neutral) x payloads {{empty, 3 rows whose text starts 'BZh' (csv without header), same with header}} = {nrt} cases", rt_names.len(), cx.budget(2, 3)));
+
+    // names that consist of nothing but the extension (dot-files), alone and inside a directory
+    let mut nbare = 0;
+    for e in &exts {
+        for k in 0..2 {
+            let v = case_variant(cx, e, k);
+            for name in [v.clone(), format!("dir/{v}")] {
+                for w in J_WRITERS {
+                    let r = if w == W::CloudJsonl { R::CloudJsonl } else { J_READERS[nbare % J_READERS.len()] };
+                    one_rt(cx, &mut env, w, r, &name, &payload_j(bzh.clone()), &o2);
+                    nbare += 1;
+                }
+                for w in C_WRITERS {
+                    one_rt(cx, &mut env, w, C_READERS[nbare % C_READERS.len()], &name, &payload_c(bzh.clone(), true), &o2);
+                    nbare += 1;
+                }
+            }
+        }
+    }
+    cx.exhaustive_blocks.push(format!("RT: names that are only an extension (`.gz`, `dir/.GZ`, ...) x every writer entry point = {nbare} cases"));
+
+    // genuine streams / raw content under every name class, through every reader
+    let mut nrd = 0;
+    let rd_names = ["x.dat", "x", "x.jsonl", "x.GZ", "x.zst", "x.Bz2", "x.xz", "x.gz.bak"];
+    for n in rd_names {
+        for (c, _, _) in SPEC {
+            for r in J_READERS { one_rd(cx, &mut env, r, n, Some(c), &payload_j(bzh.clone()), &o2); nrd += 1; }
+            for r in C_READERS { one_rd(cx, &mut env, r, n, Some(c), &payload_c(bzh.clone(), false), &o2); nrd += 1; }
+        }
+        for r in J_READERS { one_rd(cx, &mut env, r, n, None, &payload_j(bzh.clone()), &o2); nrd += 1; }
+        for r in C_READERS {
+            one_rd(cx, &mut env, r, n, None, &payload_c(bzh.clone(), false), &o2);
+            one_rd(cx, &mut env, r, n, None, &payload_c(bz.clone(), false), &o2);
+            nrd += 2;
+        }
+        for c in &contents { one_rd(cx, &mut env, R::Raw, n, None, &payload_b(c.clone()), &o2); nrd += 1; }
+    }
+    cx.exhaustive_blocks.push(format!("RD: {} names x (genuine stream of every codec | plain text | every signature-prefix content) x every reader = {nrd} cases", rd_names.len()));
+
+    // ---- (3) random block ----
+    let rounds = if cx.tier == crate::ctx::Tier::Search { 12000 } else { cx.budget(1500, 60000) };
+    for _ in 0..rounds {
+        let name = gen_name(cx);
+        match cx.rng.below(10) {
+            0..=3 => {
+                // record round trip
+                let recs = gen_rows(cx, 6);
+                let o = gen_opts(cx, recs.len());
+                if cx.rng.chance(1, 2) {
+                    let w = *cx.rng.pick(&J_WRITERS);
+                    let r = *cx.rng.pick(&J_READERS);
+                    one_rt(cx, &mut env, w, r, &name, &payload_j(recs), &o);
+                } else {
+                    let h = cx.rng.chance(1, 2);
+                    let w = *cx.rng.pick(&C_WRITERS);
+                    let r = *cx.rng.pick(&C_READERS);
+                    one_rt(cx, &mut env, w, r, &name, &payload_c(recs, h), &o);
+                }
+            }
+            4 => {
+                // raw bytes through the raw writer and reader
+                let c = gen_bytes(cx, &contents);
+                let o = gen_opts(cx, 1);
+                one_rt(cx, &mut env, W::Raw, R::Raw, &name, &payload_b(c), &o);
+            }
+            5 | 6 => {
+                let c = gen_bytes(cx, &contents);
+                one_detect(cx, &name, &c);
+            }
+            7 => {
+                let o = gen_opts(cx, 1);
+                let c = gen_bytes(cx, &contents);
+                one_rd(cx, &mut env, R::Raw, &name, None, &payload_b(c), &o);
+            }
+            _ => {
+                // genuine stream of a random codec under a random name through a random reader
+                let recs = gen_rows(cx, 5);
+                let o = gen_opts(cx, recs.len());
+                let c = SPEC[cx.rng.below(4)].0;
+                let codec = if cx.rng.chance(4, 5) { Some(c) } else { None };
+                if cx.rng.chance(1, 2) {
+                    let r = *cx.rng.pick(&J_READERS);
+                    one_rd(cx, &mut env, r, &name, codec, &payload_j(recs), &o);
+                } else {
+                    let r = *cx.rng.pick(&C_READERS);
+                    one_rd(cx, &mut env, r, &name, codec, &payload_c(recs, false), &o);
+                }
+            }
+        }
+    }
+}
+
+fn gen_bytes(cx: &mut Ctx, contents: &[Vec<u8>]) -> Vec<u8> {
+    match cx.rng.below(4) {
+        0 => contents[cx.rng.below(contents.len())].clone(),
+        1 => {
+            // a signature prefix followed by random bytes
+            let s = SPEC[cx.rng.below(4)].2;
+            let k = cx.rng.below(s.len() + 1);
+            let mut v = s[..k].to_vec();
+            for _ in 0..cx.rng.below(40) { v.push(cx.rng.below(256) as u8); }
+            v
+        }
+        2 => {
+            // text
+            let n = cx.rng.below(60);
+            let alpha: &[u8] = b"BZh(,\n abcxyz019{}\"\x1f";
+            (0..n).map(|_| alpha[cx.rng.below(alpha.len())]).collect()
+        }
+        _ => {
+            let n = cx.rng.below(30);
+            (0..n).map(|_| cx.rng.below(256) as u8).collect()
+        }
+    }
+}
